@@ -36,6 +36,10 @@ chk("C08","fault_enumeration",
     "Whole-server runs with three monitors: (1) after every request of a random metadata/publish/note/delete sequence on grp and p2p topics the loaded topic's cached fields are compared with the store rows at logical quiescence; (2) reload differential: a fixed probe set answered by every attached subscriber before and after a real idle unload + reload must be identical; (3) for 16 request kinds every store write of the request is failed once (failed => store unchanged; cache = store in every case) and for 7 request kinds the process is SIGKILLed before/after each of the first store writes and right after the acknowledgement, restarted from the snapshot and probed (acknowledged => the probes equal those of an uncrashed run). Store-failure and crash points are enumerated completely for the listed request kinds; request sequences are sampled.",
     "vfmem mirrors the adapter contract; only single store failures are injected; multi-write handlers without a transaction that fail half-way are recorded in known_findings.json (ownership transfer, set desc public+private, del msg, publish write order, read note dragging recv).",
     "hooked-state invariant (cache vs rows) + reload differential + store fault/crash enumeration","sim","DESIGN.md 3/C08")
+chk("C09","exploration",
+    "Whole-server runs on grp/chn/p2p topics with the C02 population: every {note} (read/recv/kp/kpa/unknown, sequence numbers around the current marks, the last id and beyond) from attached, detached, read-less, write-less, channel-reader and foreign sessions is classified valid/invalid from store rows + attachment history; at quiescence invalid notes must have caused no frame and no store write, valid ones must store exactly the mark, change only the author's row and reach exactly the attached readers' sessions with true sender and the recipient's own topic name; stored and reported marks satisfy 0<=read<=recv<=seq and never decrease within a subscription lifetime, across publishes, permission changes, reloads and channel-reader re-attachment.",
+    "vfmem mirrors the adapter contract; 'kpa/kpv' echo to the sender's own other sessions is not judged (the property speaks of typing notes); one recorded finding (read note beyond recv stores read>recv) is excluded by signature.",
+    "offline oracle over client frames + store-call log + row monitor","sim","DESIGN.md 3/C09")
 chk("C05","exploration",
     "Runtime oracle over the real AccessMode code: every one of the 256x256 permission pairs is pushed through Delta/ApplyDelta/ApplyMutation and every set through text/JSON/SQL round trips (finite core enumerated completely); all short strings over the mode alphabet plus junk are compared with an independent reference for the stated laws (unknown letters rejected and target unchanged, empty = no change, N = none). The on-the-wire intersection law and the notification-replay clause are monitored in the C07 engine runs and reported there.",
     "Reference parser in harness/types/c05.go is trusted; strings longer than 5 are sampled, not enumerated; proxy replay through updateAcsFromPresMsg is exercised by the sim engine (C07), not here.",
